@@ -353,12 +353,23 @@ class Run:
     def one(self, cfg, callers, seed):
         from vf.simnet.harness import Inconclusive
         n0 = len(self.wit)
-        c = Case(self, cfg, callers, seed)
+        import diameter.node._helpers as helpers
+        real_random = helpers.random
+        if cfg.get("aligned_hbh"):
+            # every connection's hop-by-hop generator draws the same random start value (an outcome the real
+            # generator can produce): identifiers are unique per connection only
+            from vf.checks.c16 import ScriptedRandom
+            helpers.random = ScriptedRandom(real_random, lambda a, b: 0x00777000 if (a, b) == (1, 0xffffffff) else None)
+            self.cov["aligned_hbh_cases"] = self.cov.get("aligned_hbh_cases", 0) + 1
         try:
-            c.execute()
-        except Inconclusive as e:
-            self.cov["inconclusive_cases"] = self.cov.get("inconclusive_cases", 0) + 1
-            self.last_inconclusive = str(e)
+            c = Case(self, cfg, callers, seed)
+            try:
+                c.execute()
+            except Inconclusive as e:
+                self.cov["inconclusive_cases"] = self.cov.get("inconclusive_cases", 0) + 1
+                self.last_inconclusive = str(e)
+        finally:
+            helpers.random = real_random
         if c.h.thread_exc and len(self.wit) > n0:
             # a node thread died in this case (C14's subject): what the other oracles saw afterwards is void
             del self.wit[n0:]
@@ -395,6 +406,8 @@ def run_shard(spec):
     rng = random.Random(h64("C10", spec["seed"], spec["name"]))
     for i in range(spec["n"]):
         cfg = make_config(rng)
+        if rng.random() < 0.2:
+            cfg["aligned_hbh"] = True
         ncall = rng.randrange(1, 5)
         callers = []
         for _ in range(ncall):
